@@ -591,3 +591,225 @@ def replay(ck, payload):
     common.force_repo_path()
     print(payload.get("what"))
     return 0
+
+
+# ---------------------------------------------------------------------------
+# the generated WSDL/XSD family (document graphs) and client fingerprints
+# ---------------------------------------------------------------------------
+WSDLNS = 'xmlns:wsdl="http://schemas.xmlsoap.org/wsdl/" xmlns:soap="http://schemas.xmlsoap.org/wsdl/soap/" ' \
+         'xmlns:xsd="http://www.w3.org/2001/XMLSchema"'
+
+# operations: name -> (input element children, output type)
+OPS = {
+    "f": ([("a", "xsd:string")], "xsd:string"),
+    "g": ([("n", "xsd:int"), ("flag", "xsd:boolean")], "xsd:int"),
+    "h": ([("p", "tns:Person")], "tns:Person"),
+}
+
+
+def family_member(shape, nops, style, extra=0):
+    """A document set {location: bytes} whose root is main.wsdl.
+    shape: 0 one WSDL; 1 + xsd:import of a.xsd; 2 + a.xsd includes b.xsd;
+           3 wsdl:import of c.wsdl (port type + messages + types there);
+           4 c.wsdl in turn imports d.wsdl (messages + types there);
+           5 wsdl:import whose target is the schema a.xsd;
+           6 shape 3 and shape 5 together
+    style: 'doc' (wrapped document/literal) | 'rpc' (rpc/literal)"""
+    ops = ["f", "g", "h"][:nops]
+    use_a = shape in (1, 2, 5, 6)
+    tns_main, tns_c, tns_d = "urn:main", "urn:c", "urn:d"
+    split = shape in (3, 4, 6)
+    deep = shape == 4
+    tns_types = tns_d if deep else tns_c if split else tns_main
+
+    def schema(tns):
+        els = []
+        if use_a and shape in (1, 2):
+            els.append('<xsd:import namespace="ns-a" schemaLocation="suds://a.xsd"/>')
+        els.append('<xsd:complexType name="Person"><xsd:sequence><xsd:element name="name" type="xsd:string"/>'
+                   '<xsd:element name="age" type="xsd:int" minOccurs="0"/>%s</xsd:sequence>'
+                   '<xsd:attribute name="id" type="xsd:string"/></xsd:complexType>'
+                   % "".join('<xsd:element name="x%d" type="xsd:string" minOccurs="0"/>' % i for i in range(extra)))
+        for o in ops:
+            kids, out = OPS[o]
+            els.append('<xsd:element name="%s"><xsd:complexType><xsd:sequence>%s</xsd:sequence></xsd:complexType>'
+                       '</xsd:element>' % (o, "".join('<xsd:element name="%s" type="%s"/>' % kv for kv in kids)))
+            els.append('<xsd:element name="%sResponse"><xsd:complexType><xsd:sequence><xsd:element name="result" '
+                       'type="%s"/></xsd:sequence></xsd:complexType></xsd:element>' % (o, out))
+        return ('<wsdl:types><xsd:schema targetNamespace="%s" xmlns:tns="%s" elementFormDefault="qualified">%s'
+                '</xsd:schema></wsdl:types>' % (tns, tns, "".join(els)))
+
+    def messages(tprefix):
+        ms = []
+        for o in ops:
+            if style == "doc":
+                ms.append('<wsdl:message name="%sIn"><wsdl:part name="parameters" element="%s:%s"/></wsdl:message>'
+                          % (o, tprefix, o))
+                ms.append('<wsdl:message name="%sOut"><wsdl:part name="parameters" element="%s:%sResponse"/>'
+                          '</wsdl:message>' % (o, tprefix, o))
+            else:
+                kids, out = OPS[o]
+                ms.append('<wsdl:message name="%sIn">%s</wsdl:message>' % (o, "".join(
+                    '<wsdl:part name="%s" type="%s"/>' % (k, t.replace("tns:", tprefix + ":")) for k, t in kids)))
+                ms.append('<wsdl:message name="%sOut"><wsdl:part name="result" type="%s"/></wsdl:message>'
+                          % (o, out.replace("tns:", tprefix + ":")))
+        return "".join(ms)
+
+    def porttype(mprefix):
+        return '<wsdl:portType name="PT">%s</wsdl:portType>' % "".join(
+            '<wsdl:operation name="%s"><wsdl:input message="%s:%sIn"/><wsdl:output message="%s:%sOut"/>'
+            '</wsdl:operation>' % (o, mprefix, o, mprefix, o) for o in ops)
+
+    def binding(pprefix):
+        body = '<soap:body use="literal"%s/>' % (' namespace="urn:rpc"' if style == "rpc" else "")
+        return ('<wsdl:binding name="B" type="%s:PT"><soap:binding style="%s" '
+                'transport="http://schemas.xmlsoap.org/soap/http"/>%s</wsdl:binding>'
+                % (pprefix, "document" if style == "doc" else "rpc", "".join(
+                    '<wsdl:operation name="%s"><soap:operation soapAction="act-%s"/><wsdl:input>%s</wsdl:input>'
+                    '<wsdl:output>%s</wsdl:output></wsdl:operation>' % (o, o, body, body) for o in ops)))
+
+    service = ('<wsdl:service name="S"><wsdl:port name="P" binding="tns:B"><soap:address '
+               'location="http://unused.invalid/svc"/></wsdl:port><wsdl:port name="P2" binding="tns:B">'
+               '<soap:address location="http://unused.invalid/svc2"/></wsdl:port></wsdl:service>')
+    docs = {}
+    imp_a = '<wsdl:import namespace="ns-a" location="suds://a.xsd"/>' if shape in (5, 6) else ""
+    if not split:
+        docs["main.wsdl"] = ('<wsdl:definitions targetNamespace="%s" xmlns:tns="%s" %s>%s%s%s%s%s%s'
+                             '</wsdl:definitions>' % (tns_main, tns_main, WSDLNS, imp_a, schema(tns_main),
+                                                      messages("tns"), porttype("tns"), binding("tns"), service))
+    else:
+        docs["main.wsdl"] = ('<wsdl:definitions targetNamespace="%s" xmlns:tns="%s" xmlns:c="%s" %s>'
+                             '<wsdl:import namespace="%s" location="suds://c.wsdl"/>%s%s%s</wsdl:definitions>'
+                             % (tns_main, tns_main, tns_c, WSDLNS, tns_c, imp_a, binding("c"), service))
+        if not deep:
+            docs["c.wsdl"] = ('<wsdl:definitions targetNamespace="%s" xmlns:tns="%s" %s>%s%s%s</wsdl:definitions>'
+                              % (tns_c, tns_c, WSDLNS, schema(tns_c), messages("tns"), porttype("tns")))
+        else:
+            docs["c.wsdl"] = ('<wsdl:definitions targetNamespace="%s" xmlns:tns="%s" xmlns:d="%s" %s>'
+                              '<wsdl:import namespace="%s" location="d.wsdl"/>%s</wsdl:definitions>'
+                              % (tns_c, tns_c, tns_d, WSDLNS, tns_d, porttype("d")))
+            docs["d.wsdl"] = ('<wsdl:definitions targetNamespace="%s" xmlns:tns="%s" %s>%s%s</wsdl:definitions>'
+                              % (tns_d, tns_d, WSDLNS, schema(tns_d), messages("tns")))
+    if use_a:
+        docs["a.xsd"] = ('<xsd:schema xmlns:xsd="http://www.w3.org/2001/XMLSchema" targetNamespace="ns-a" '
+                         'elementFormDefault="qualified">%s<xsd:element name="ea" type="xsd:string"/>'
+                         '<xsd:complexType name="TA"><xsd:sequence><xsd:element name="v" type="xsd:string"/>'
+                         '</xsd:sequence></xsd:complexType></xsd:schema>'
+                         % ('<xsd:include schemaLocation="b.xsd"/>' if shape == 2 else ""))
+    if shape == 2:
+        docs["b.xsd"] = ('<xsd:schema xmlns:xsd="http://www.w3.org/2001/XMLSchema" targetNamespace="ns-a">'
+                         '<xsd:element name="eb" type="xsd:int"/></xsd:schema>')
+    return dict((k, v.encode("utf-8")) for k, v in docs.items()), ops, tns_types
+
+
+REPLY = ('<env:Envelope xmlns:env="http://schemas.xmlsoap.org/soap/envelope/"><env:Body>%s</env:Body>'
+         '</env:Envelope>')
+
+
+def canned_reply(op, style, tns_types):
+    out = OPS[op][1]
+    val = {"xsd:string": "r&amp;s", "xsd:int": "42"}.get(
+        out, '<t:name xmlns:t="%s">N</t:name><t:age xmlns:t="%s">7</t:age>' % (tns_types, tns_types))
+    if style == "doc":
+        body = '<t:%sResponse xmlns:t="%s"><t:result%s>%s</t:result></t:%sResponse>' % (
+            op, tns_types, ' id="i1"' if out == "tns:Person" else "", val, op)
+    else:
+        body = '<r:%sResponse xmlns:r="urn:rpc"><result>%s</result></r:%sResponse>' % (
+            op, val.replace("t:", "t:") if out != "tns:Person" else val, op)
+    return (REPLY % body).encode("utf-8")
+
+
+class FetchLog(object):
+    def __init__(self):
+        self.urls = []
+        self.transport = 0
+
+
+def make_store(docs, log):
+    import suds.store
+
+    class RecStore(suds.store.DocumentStore):
+        def open(self, url):
+            content = suds.store.DocumentStore.open(self, url)
+            if content is not None:
+                log.urls.append(url)
+            return content
+    s = RecStore()
+    s.update(docs)
+    return s
+
+
+def make_transport(log):
+    import suds.transport
+
+    class NoTransport(suds.transport.Transport):
+        def open(self, request):
+            log.transport += 1
+            raise suds.transport.TransportError("no network in this check", 404)
+
+        def send(self, request):
+            log.transport += 1
+            raise suds.transport.TransportError("no network in this check", 404)
+    return NoTransport()
+
+
+def call_args(client, op):
+    if op == "f":
+        return ("x<y",), {}
+    if op == "g":
+        return (7, True), {}
+    p = client.factory.create("{%s}Person" % person_ns(client))
+    p.name = "Ann"
+    p.age = 30
+    p._id = "p1"
+    return (p,), {}
+
+
+def person_ns(client):
+    for sd in client.sd:
+        for t in sd.types:
+            if t[0].name == "Person":
+                return t[0].namespace()[1]
+    return "urn:main"
+
+
+def fingerprint(client, ops, style, tns_types):
+    """What a client does, as a comparable value: operations and parameter types, factory
+    objects, request envelopes (namespace infosets) and decoded canned replies."""
+    from . import sudsutil
+    fp = {}
+    meths = []
+    for sd in client.sd:
+        for port, methods in sd.ports:
+            for name, params in methods:
+                meths.append((port.name, name, tuple((p[0], tuple(p[1].resolve().qname) if p[1] is not None
+                                                      else None) for p in params)))
+        fp["types"] = tuple(sorted(tuple(t[0].qname) for t in sd.types))
+    fp["methods"] = tuple(meths)
+    objs = []
+    for q in fp.get("types", ()):
+        try:
+            objs.append((q, str(client.factory.create("{%s}%s" % (q[1], q[0])))))
+        except Exception as e:
+            objs.append((q, "raises " + type(e).__name__))
+    fp["factory"] = tuple(objs)
+    envs, reps = [], []
+    for op in ops:
+        try:
+            a, kw = call_args(client, op)
+            ctx = getattr(client.service, op)(*a, **kw)
+            env = ctx.envelope
+            hdr = tuple(sorted((k, v if isinstance(v, str) else v.decode()) for k, v in
+                               ctx.client.headers().items())) if hasattr(ctx, "client") else ()
+            envs.append((op, sudsutil.expat_parse(env).canon(strip_ws=False), env.count(b"\n") > 0,
+                         ctx.client.location() if hasattr(ctx, "client") else None, hdr))
+            try:
+                rep = ctx.process_reply(canned_reply(op, style, tns_types), 200)
+                reps.append((op, rep if isinstance(rep, (bytes, str, int, type(None))) else str(rep)))
+            except Exception as e:
+                reps.append((op, "raises " + type(e).__name__))
+        except Exception as e:
+            envs.append((op, "raises " + type(e).__name__ + ": " + str(e)[:80]))
+    fp["envelopes"] = tuple(envs)
+    fp["replies"] = tuple(reps)
+    return fp
